@@ -663,7 +663,9 @@ func (x *TopicsIndex) gatherSubscriptions(topic string, particle *particle, subs
 			cls = sub
 		}
 
-		subs.Subscriptions[client] = cls.Merge(sub)
+		merged := cls.Merge(sub)
+		merged.NoLocal = cls.NoLocal && sub.NoLocal // one matching subscription without No Local entitles the client to its own message
+		subs.Subscriptions[client] = merged
 	}
 }
 
